@@ -94,6 +94,22 @@ def recogniser(ctx):
     ctx.notes["recogniser_cross_check"] = {"validators_upto": 6, "wall_s": round(r.wall_s, 1)}
 
 
+def instance_history(trace, idx, node, inst):
+    """`note` events (history of an instance) of the configuration that contains event `idx`."""
+    notes = []
+    with open(trace) as f:
+        for k, line in enumerate(f, 1):
+            if k >= idx:
+                break
+            if '"op":"cfg"' in line:
+                notes = []
+            elif '"op":"note"' in line:
+                e = json.loads(line)
+                if e.get("node") == node and e.get("inst") == inst:
+                    notes.append(e.get("what"))
+    return notes
+
+
 def validate_trace(ctx, t):
     kind = t["label"]
     n_lines = sum(1 for _ in open(t["trace"]))
@@ -144,6 +160,7 @@ def run(ctx):
                          "net_calls_conforming": cnt["net"], "probe_calls_conforming": cnt["probes"],
                          "entries_inferred": cnt["inferred"], "turbine_trees_recognised": cnt["trees"],
                          "events_skipped_after_divergence": cnt["skipped"], "divergences": cnt["divs"],
+                          "switched_instances": t.get("switched_instances", 0),
                          "tlc_wall_s": round(r.wall_s, 1)}
         if cnt["cfgs"] != t["cfgs"] or cnt["divs"] != len(divs):
             raise ToolError(f"trace {kind}: configuration / divergence count mismatch")
@@ -154,6 +171,9 @@ def run(ctx):
         if kind != "rotor_fa1" or cnt["divs"] == 0:
             if cnt["delivered"] == 0 or (kind != "trivial" and cnt["inferred"] == 0):
                 raise ToolError(f"trace {kind}: nothing delivered / inferred")
+        # instances with a history (with_sampler / with_fanout after routing) must be among the copies
+        if kind != "trivial" and t.get("switched_instances", 0) == 0 and t.get("panics", 0) == 0:
+            raise ToolError(f"trace {label}: no switched (with_sampler / with_fanout) instance was exercised")
         if kind == "turbine" and cnt["divs"] == 0 and cnt["trees"] == 0:
             raise ToolError("trace turbine: no complete tree was observed")
         out = []
@@ -171,7 +191,8 @@ def run(ctx):
             out.append({"fingerprint": fp, "fields": [reason],
                         "trace": t["trace"], "event_index": d["idx"],
                         "config": {"id": d["cfg"], "n": d["n"], "fanout": d["f"]},
-                        "offending_event": ev, "spec_expected": d.get("detail")})
+                        "offending_event": ev, "spec_expected": d.get("detail"),
+                        "instance_history": instance_history(t["trace"], d["idx"], ev.get("node"), ev.get("inst"))})
         ctx.replay_report(MODEL, {"model": MODEL + ":" + label, "walks": cnt["runs"], "steps": t["events"],
                                   "edges": cnt["net"] + cnt["probes"], "covered": cnt["net"] + cnt["probes"],
                                   "complete": cnt["divs"] == 0, "div_count": cnt["divs"],
